@@ -17,5 +17,5 @@ CONSTANTS
   MaxCrash = 0
   MaxFault = 0
 SYMMETRY Sym
-INVARIANTS TypeOK Consistent LWW RejectNotMangle NoSpuriousError DurableReadable AlwaysRecoverable
+INVARIANTS TypeOK Consistent LWW RejectNotMangle NoSpuriousError NoTornFailure FlushBoundary DurableReadable AlwaysRecoverable
 CHECK_DEADLOCK FALSE
